@@ -1,0 +1,35 @@
+//go:build verif
+
+package kmerindex
+
+// Contracts for the deductive verifier in /verif (govc). Only compiled with -tags verif.
+
+// Ghost trace of the calls made through the callback: calledAt(p) - f has been invoked for position p;
+// lastCall(0) - the position of the most recent invocation.
+//@ ghostfield calledAt(pos int) bool
+//@ ghostfield lastCall(k int) int
+
+// validAt: the letter at index t of s is one of the four indexed letters; validWindow: the k letters from p are.
+//@ spec validAt(ki *Index, s *linear.Seq, t int) bool = ki.lookUp[s.Seq[t]] >= 0
+//@ spec validWindow(ki *Index, s *linear.Seq, p int) bool = forall t int :: p <= t && t < p + ki.k ==> validAt(ki, s, t)
+
+// ForEachKmerOf invokes f exactly for the windows of [start, end) that contain no invalid letter, in increasing order.
+//@ func (*Index).ForEachKmerOf
+//@   property C10
+//@   requires ki != nil && s != nil && ki.lookUp != nil && ki.k >= 1
+//@   requires 0 <= start && start + ki.k - 1 <= len(s.Seq) && end <= len(s.Seq)
+//@   requires lastCall(0) < start && forall p int :: p >= start ==> !calledAt(p)
+//@   callback f requires j > lastCall(0)
+//@   callback f ensures  calledAt(j) && lastCall(0) == j
+//@   callback f assigns  calledAt(j), lastCall(0)
+//@   ensures [exact] forall p int :: p >= start ==> (calledAt(p) <==> (p + ki.k <= end && validWindow(ki, s, p)))
+//@   loop 1 invariant start <= basePosition && basePosition <= start + ki.k - 1 && high <= basePosition && (high == 0 || high > start)
+//@   loop 1 invariant forall t int :: start <= t && high <= t && t < basePosition ==> validAt(ki, s, t)
+//@   loop 1 invariant high > start ==> !validAt(ki, s, high - 1)
+//@   loop 1 invariant lastCall(0) < start && forall p int :: p >= start ==> !calledAt(p)
+//@   loop 1 decreases start + ki.k - 1 - basePosition
+//@   loop 2 invariant start <= position && basePosition == position + ki.k - 1 && high <= basePosition && (high == 0 || high > start) && (basePosition <= end || basePosition == start + ki.k - 1)
+//@   loop 2 invariant forall t int :: start <= t && high <= t && t < basePosition ==> validAt(ki, s, t)
+//@   loop 2 invariant high > start ==> !validAt(ki, s, high - 1)
+//@   loop 2 invariant lastCall(0) < position && forall p int :: p >= start ==> (calledAt(p) <==> (p < position && validWindow(ki, s, p)))
+//@   loop 2 decreases end - basePosition
